@@ -213,7 +213,7 @@ fn main() {
             visit_as::<Rgb565>(ctx, &Desc::Styled(p, st));
         });
         // --- random styled primitives
-        let rs_n = run.tier(120_000u64, 3_000_000u64);
+        let rs_n = run.tier(120_000u64, 12_000_000u64);
         run.generate("random-styled-small", rs_n, false, 0.2, |ctx, idx, rng| {
             let d = zoo::gen_styled(rng, &GenCfg::SMALL, None);
             if idx % 2 == 0 {
@@ -228,7 +228,7 @@ fn main() {
             visit_as::<Gray8>(ctx, &d);
         });
         // --- images and sub-images
-        let im_n = run.tier(40_000u64, 600_000u64);
+        let im_n = run.tier(40_000u64, 4_000_000u64);
         run.generate("images", im_n, false, 0.25, |ctx, idx, rng| match idx % 5 {
             0 => visit_as::<BinaryColor>(ctx, &zoo::gen_image::<BinaryColor>(rng, 9, 5)),
             1 => visit_as::<Gray4>(ctx, &zoo::gen_image::<Gray4>(rng, 9, 5)),
@@ -237,7 +237,7 @@ fn main() {
             _ => visit_as::<Rgb888>(ctx, &zoo::gen_image::<Rgb888>(rng, 9, 5)),
         });
         // --- text
-        let tx_n = run.tier(30_000u64, 600_000u64);
+        let tx_n = run.tier(30_000u64, 4_000_000u64);
         run.generate("text", tx_n, false, 0.5, |ctx, idx, rng| {
             let d = zoo::gen_text(rng, (1, 4));
             if idx % 2 == 0 {
